@@ -19,7 +19,17 @@ from typing import Any
 
 import yaml
 
-from octave_mcp.core.ast_nodes import Assignment, Block, Document, InlineMap, ListValue, LiteralZoneValue
+from octave_mcp.core.ast_nodes import (
+    Absent,
+    Assignment,
+    Block,
+    Document,
+    HolographicValue,
+    InlineMap,
+    ListValue,
+    LiteralZoneValue,
+    Section,
+)
 from octave_mcp.core.gbnf_compiler import GBNFCompiler, compile_gbnf_from_meta
 from octave_mcp.core.parser import parse
 from octave_mcp.core.projector import project
@@ -48,10 +58,17 @@ def _ast_to_dict(doc: Document) -> dict[str, Any]:
     for section in doc.sections:
         if isinstance(section, Assignment):
             result[section.key] = _convert_value(section.value)
-        elif isinstance(section, Block):
-            result[section.key] = _convert_block(section)
+        elif isinstance(section, Block | Section):
+            result[_container_key(section)] = _convert_block(section)
 
     return result
+
+
+def _container_key(node: Block | Section) -> str:
+    """Key under which a block or section marker appears in dict/markdown views."""
+    if isinstance(node, Section):
+        return f"\u00a7{node.section_id}::{node.key}"
+    return node.key
 
 
 def _convert_value(value: Any) -> Any:
@@ -76,11 +93,16 @@ def _convert_value(value: Any) -> Any:
         return [_convert_value(item) for item in value.items]
     elif isinstance(value, InlineMap):
         return {k: _convert_value(v) for k, v in value.pairs.items()}
+    elif isinstance(value, HolographicValue):
+        # Holographic patterns are exported as their source text (JSON/YAML have no such type)
+        return value.raw_pattern
+    elif isinstance(value, Absent):
+        return None
     else:
         return value
 
 
-def _convert_block(block: Block) -> dict[str, Any]:
+def _convert_block(block: Block | Section) -> dict[str, Any]:
     """Convert Block AST node to dictionary.
 
     Args:
@@ -94,8 +116,8 @@ def _convert_block(block: Block) -> dict[str, Any]:
     for child in block.children:
         if isinstance(child, Assignment):
             result[child.key] = _convert_value(child.value)
-        elif isinstance(child, Block):
-            result[child.key] = _convert_block(child)
+        elif isinstance(child, Block | Section):
+            result[_container_key(child)] = _convert_block(child)
 
     return result
 
@@ -128,6 +150,8 @@ def _format_markdown_value(value: Any) -> str:
         # Format inline map as key: value pairs
         pairs = [f"{k}: {_format_markdown_value(v)}" for k, v in value.pairs.items()]
         return ", ".join(pairs)
+    elif isinstance(value, HolographicValue):
+        return value.raw_pattern
     else:
         # Regular values are stringified directly
         return str(value)
@@ -163,15 +187,15 @@ def _ast_to_markdown(doc: Document) -> str:
             # I3: Format values to avoid exposing Python internals
             lines.append(f"**{section.key}**: {_format_markdown_value(section.value)}")
             lines.append("")
-        elif isinstance(section, Block):
-            lines.append(f"## {section.key}")
+        elif isinstance(section, Block | Section):
+            lines.append(f"## {_container_key(section)}")
             lines.append("")
             _block_to_markdown(section, lines, level=3)
 
     return "\n".join(lines)
 
 
-def _block_to_markdown(block: Block, lines: list[str], level: int = 3) -> None:
+def _block_to_markdown(block: Block | Section, lines: list[str], level: int = 3) -> None:
     """Convert Block to Markdown recursively.
 
     Args:
@@ -183,8 +207,8 @@ def _block_to_markdown(block: Block, lines: list[str], level: int = 3) -> None:
         if isinstance(child, Assignment):
             # I3: Format values to avoid exposing Python internals
             lines.append(f"- **{child.key}**: {_format_markdown_value(child.value)}")
-        elif isinstance(child, Block):
-            lines.append(f"{'#' * level} {child.key}")
+        elif isinstance(child, Block | Section):
+            lines.append(f"{'#' * level} {_container_key(child)}")
             lines.append("")
             _block_to_markdown(child, lines, level + 1)
 
